@@ -1,6 +1,6 @@
 /-
-  C24 — placeholder property file: the protocol model and its theorems are being added (see DESIGN.md
-  section 6); until then the property is decided by the oracles of the harness client on explored schedules.
+  C24 — exactness of the history checker used by tie H for the bag specification.
+  The algorithm-level theorems (pool machine over an abstract atomic bounded FIFO, every schedule) are in Props/C24Pool.lean.
 -/
 import CdsVerif.Base.Spec
 namespace CdsVerif.Props.C24
